@@ -16,8 +16,9 @@ import tempfile
 from codebasin import preprocessor
 from codebasin.platform import Platform
 
-OBJ_BODIES = ["1", "X", "Y + 1", "(X)", "F(2)", "", "X ## 1", "p q"]
-FUN_DEFS = [("F", "(a)", ["a", "a + 1", "a * G", "#a", "a ## 1", "x ## a", "(a)", "F(a)", "G(a)", "a a", "", "X a"]),
+OBJ_BODIES = ["1", "X", "Y + 1", "(X)", "F(2)", "", "X ## 1", "p q", "(1 + E())", "F()"]
+FUN_DEFS = [("E", "()", ["1", "", "X"]),
+            ("F", "(a)", ["a", "a + 1", "a * G", "#a", "a ## 1", "x ## a", "(a)", "F(a)", "G(a)", "a a", "", "X a", "(a + E())", "V(a)"]),
             ("G", "(a, b)", ["a b", "a + b", "b a", "a ## b", "#a #b", "F(a) b", "a", "G(a, b)", "F(b)", "(a, b)"]),
             ("V", "(a, ...)", ["a __VA_ARGS__", "#__VA_ARGS__", "F(__VA_ARGS__)", "a"])]
 ARGS1 = ["2", "x y", "(1, 2)", "", "F(3)", "X", "\"s t\"", "  p  q  "]
@@ -42,7 +43,9 @@ def invocations(rng):
     a = rng.choice(ARGS1)
     b = rng.choice(ARGS2)
     return rng.choice([f"F({a})", f"G({b[0]}, {b[1]})", "X", "Y", f"F(F({a}))", f"F({a})({a})", f"V({a}, {b[0]}, {b[1]})", f"V({a})",
-                       f"X F({a}) Y", f"G(F({a}), X)", "F", f"F ({a})", f"G({a}, G({b[0]}, {b[1]}))"])
+                       f"X F({a}) Y", f"G(F({a}), X)", "F", f"F ({a})", f"G({a}, G({b[0]}, {b[1]}))",
+                       # the same macro used twice in one directive (state left behind by the first use)
+                       f"F({a}) + F({b[0]})", "X * X", f"G({b[0]}, {b[1]}) G({b[1]}, {b[0]})", "E() E()", f"F() F({a})", "Y + Y"])
 
 
 def gcc_expand(cases):
